@@ -1,25 +1,36 @@
-(* Reference semantics of finite automata with epsilon moves (the part to be believed). *)
+(* Reference semantics of finite automata with epsilon moves (the part to be believed).
+   States are of an arbitrary type Q (N for automata read from pyformlang, lists / pairs for the
+   results of the subset and product constructions); symbols are N. *)
 From Coq Require Import List NArith.
 Import ListNotations.
 
-Record enfa := mkE {
-  e_states : list N;                       (* .states *)
+Record enfa (Q : Type) := mkE {
+  e_states : list Q;                       (* .states *)
   e_syms   : list N;                       (* .symbols (the alphabet) *)
-  e_delta  : list (N * option N * N);      (* (source, label, target); None = epsilon *)
-  e_starts : list N;
-  e_finals : list N }.
+  e_delta  : list (Q * option N * Q);      (* (source, label, target); None = epsilon *)
+  e_starts : list Q;
+  e_finals : list Q }.
+Arguments mkE {Q}. Arguments e_states {Q}. Arguments e_syms {Q}. Arguments e_delta {Q}.
+Arguments e_starts {Q}. Arguments e_finals {Q}.
 
-Inductive run (A : enfa) : N -> list N -> N -> Prop :=
+Inductive run {Q} (A : enfa Q) : Q -> list N -> Q -> Prop :=
 | run_nil q : run A q [] q
 | run_eps q q' w r : In (q, None, q') (e_delta A) -> run A q' w r -> run A q w r
 | run_sym q a q' w r : In (q, Some a, q') (e_delta A) -> run A q' w r -> run A q (a :: w) r.
 
-Definition Lang (A : enfa) (w : list N) : Prop :=
+Definition Lang {Q} (A : enfa Q) (w : list N) : Prop :=
   exists s f, In s (e_starts A) /\ In f (e_finals A) /\ run A s w f.
 
-Definition eps_free (A : enfa) : Prop := forall p q, ~ In (p, None, q) (e_delta A).
-Definition functional (A : enfa) : Prop :=
+Definition eps_free {Q} (A : enfa Q) : Prop := forall p q, ~ In (p, None, q) (e_delta A).
+Definition functional {Q} (A : enfa Q) : Prop :=
   forall p a q q', In (p, Some a, q) (e_delta A) -> In (p, Some a, q') (e_delta A) -> q = q'.
-Definition is_dfa (A : enfa) : Prop :=
-  eps_free A /\ functional A /\ (forall s s', In s (e_starts A) -> In s' (e_starts A) -> s = s').
-Definition lang_eq (A B : enfa) : Prop := forall w, Lang A w <-> Lang B w.
+Definition one_start {Q} (A : enfa Q) : Prop :=
+  forall s s', In s (e_starts A) -> In s' (e_starts A) -> s = s'.
+Definition is_dfa {Q} (A : enfa Q) : Prop := eps_free A /\ functional A /\ one_start A.
+Definition lang_eq {Q1 Q2} (A : enfa Q1) (B : enfa Q2) : Prop := forall w, Lang A w <-> Lang B w.
+
+(* well-formedness as delivered by the public API: every endpoint is a state, every label a symbol *)
+Definition wf {Q} (A : enfa Q) : Prop :=
+  (forall p l q, In (p, l, q) (e_delta A) -> In p (e_states A) /\ In q (e_states A)) /\
+  (forall p a q, In (p, Some a, q) (e_delta A) -> In a (e_syms A)) /\
+  incl (e_starts A) (e_states A) /\ incl (e_finals A) (e_states A).
